@@ -100,9 +100,28 @@ func verifC18keys(nk int) []string {
 // store. The visiting ORDER of Iterate is not asserted (the mock ranges over a
 // Go map; the engine iterates maps in insertion order, natively the order is
 // random): only the set of visited keys and the stop/error contract.
+// Values have 2 bytes (value lengths: VerifC18_MockValueLengths).
 func VerifC18_MockHistory() {
 	steps := zzverif.Param("steps", 3, 4)
 	nk := zzverif.Param("keys", 3, 3)
+	verifC18history(steps, nk, 2, 2)
+	zzverif.Reach("C18-mock-history")
+}
+
+// VerifC18_MockValueLengths: shorter histories over fewer keys in which every
+// Put writes a value of 0..2 bytes chosen per Put: a key holding a value of
+// length 0 is a present key (Get succeeds and gives the empty value, Iterate
+// visits it), and overwriting changes the length.
+func VerifC18_MockValueLengths() {
+	steps := zzverif.Param("steps", 2, 3)
+	nk := zzverif.Param("keys", 2, 3)
+	verifC18history(steps, nk, 0, 2)
+	zzverif.Reach("C18-mock-value-lengths")
+}
+
+// verifC18history: `steps` operations over `nk` keys; every Put writes a value
+// of minv..maxv bytes (the length is chosen per Put when minv < maxv).
+func verifC18history(steps, nk, minv, maxv int) {
 	zzverif.Unwind(64)
 
 	var st storage.StateStorer = &store{store: make(map[string][]byte)}
@@ -113,7 +132,11 @@ func VerifC18_MockHistory() {
 		switch zzverif.Choose("op", 4) {
 		case 0: // Put
 			k := keys[zzverif.Choose("k", nk)]
-			v := zzverif.BytesN("val", 2)
+			vlen := maxv
+			if minv < maxv {
+				vlen = minv + zzverif.Choose("vlen", maxv-minv+1)
+			}
+			v := zzverif.BytesN("val", vlen)
 			err := st.Put(k, &verifC18val{b: v})
 			zzverif.Assert(err == nil, "Put succeeds")
 			ref.put(k, v)
@@ -136,7 +159,6 @@ func VerifC18_MockHistory() {
 			verifC18iterate(st, ref)
 		}
 	}
-	zzverif.Reach("C18-mock-history")
 }
 
 func verifC18iterate(st storage.StateStorer, ref *verifC18ref) {
@@ -149,16 +171,17 @@ func verifC18iterate(st storage.StateStorer, ref *verifC18ref) {
 		zzverif.Assert(!stopped && !failed, "no callback after stop or error")
 		seenK = append(seenK, verifC18copy(k))
 		seenV = append(seenV, verifC18copy(v))
+		// the callback's two results are independent: it may ask to stop and
+		// return an error at the same time (the error must still reach the caller)
 		cbErr, cbStop := zzverif.Bool("cb-error"), zzverif.Bool("cb-stop")
-		if cbErr {
-			failed = true
-			return false, verifC18errCallback
-		}
 		if cbStop {
 			stopped = true
-			return true, nil
 		}
-		return false, nil
+		if cbErr {
+			failed = true
+			return cbStop, verifC18errCallback
+		}
+		return cbStop, nil
 	})
 
 	// visited = pairwise distinct matching keys with their values
